@@ -148,8 +148,20 @@ def value_to_token(value):
 
         return simple_token(tok.type, tok.string)
 
-    return [
+    result = [
         map_string(t)
         for t in tokenize.generate_tokens(input.readline)
         if t.type not in ignore_tokens
     ]
+
+    if (
+        isinstance(value, complex)
+        and len(result) > 2
+        and result[0].string == "("
+        and result[-1].string == ")"
+    ):
+        # repr(1+2j) is "(1+2j)", but the parentheses are not part of the
+        # expression in the source code and would be added again with every update
+        result = result[1:-1]
+
+    return result
